@@ -77,7 +77,7 @@ def gen_key(r, depth, n, uidbase):
     if depth > 0 and x < 0.30:
         return ['not', gen_key(r, depth - 1, n, uidbase)]
     if depth > 0 and x < 0.40:
-        return ['and'] + [gen_key(r, depth - 1, n, uidbase) for _ in range(r.randint(1, 3))]
+        return ['and'] + with_lookalikes(r, [gen_key(r, depth - 1, n, uidbase) for _ in range(r.randint(1, 3))])
     y = r.random()
     if y < 0.12:
         from .common import gen
@@ -104,6 +104,45 @@ def gen_key(r, depth, n, uidbase):
     if y < 0.95:
         return [r.choice(['body', 'text']), r.choice(['hello', 'zebra', 'Subject', 'alice', 'pad pad', 'nomatch', 'X-Tag'])]
     return ['all']
+
+
+def lookalike(r, k):
+    """a key that differs from k in exactly one respect (kind of set, which date, polarity, which field): conjunctions of look-alikes
+    are where a key collection that deduplicates too eagerly loses a conjunct"""
+    t = k[0]
+    if t == 'seq':
+        return ['uid', k[1]]
+    if t == 'uid':
+        return ['seq', k[1]]
+    if t == 'idate':
+        return r.choice([['sdate', k[1], k[2]], ['idate', (k[1] + 1) % 3, k[2]]])
+    if t == 'sdate':
+        return r.choice([['idate', k[1], k[2]], ['sdate', (k[1] + 1) % 3, k[2]]])
+    if t == 'flag':
+        return r.choice([['flag', k[1], not k[2]], ['flag', (k[1] + 1) % 5, k[2]]])
+    if t == 'kw':
+        return ['kw', k[1], not k[2]]
+    if t == 'size':
+        return ['size', not k[1], k[2]]
+    if t == 'env':
+        return ['env', r.choice([f for f in ['FROM', 'TO', 'CC', 'BCC', 'SUBJECT'] if f != k[1]]), k[2]]
+    if t == 'header':
+        return ['header', k[1], r.choice([v for v in ['', 'hello', 'urgent', 'alice', '2020'] if v != k[2]])]
+    if t in ('body', 'text'):
+        return ['text' if t == 'body' else 'body', k[1]]
+    if t == 'not':
+        return k[1]
+    return None
+
+
+def with_lookalikes(r, keys):
+    out = list(keys)
+    for k in keys:
+        if r.random() < 0.3:
+            la = lookalike(r, k)
+            if la is not None:
+                out.insert(r.randint(0, len(out)), la)
+    return out
 
 
 def day_str(d):
@@ -289,7 +328,7 @@ async def mailbox_case(part, r, nqueries, backend_kind='dict'):
     model_lines = []
     pending = []
     for q in range(nqueries):
-        keys = [gen_key(r, 3, maxseq, 100) for _ in range(r.randint(1, 3))]
+        keys = with_lookalikes(r, [gen_key(r, 3, maxseq, 100) for _ in range(r.randint(1, 3))])
         variants = [('plain', keys)]
         variants.append(('rewritten', [rewrite(r, k) for k in keys] if r.random() < 0.7 else list(reversed(keys))))
         results = {}
